@@ -12,7 +12,7 @@ clean=$(PYTHONPATH=$WT/src /venv/bin/python $DST/demo.py 2>&1 | tail -1; echo "r
 if ! git apply --check $DST/patch.diff 2>/dev/null; then echo "PATCH DOES NOT APPLY to current main"; fi
 git apply $DST/patch.diff
 mut=$(PYTHONPATH=$WT/src /venv/bin/python $DST/demo.py 2>&1 | tail -1; echo "rc=${PIPESTATUS[0]}")
-tests=$(/venv/bin/python -m pytest -q -p no:cacheprovider --timeout=900 -x 2>&1 | tail -1)
+tests=$(PYTHONPATH=$WT/src /venv/bin/python -m pytest -q -p no:cacheprovider --timeout=900 -x 2>&1 | tail -1)
 cd /verif
 chk=$(VERIF_REPO=$WT ./check $CHK 2>&1 | grep -v "^KNOWN" | grep "VIOLATION\|^$CHK:" | tail -3)
 git -C $WT checkout -q -- .
